@@ -199,3 +199,5 @@ func readIndexFile(dir string) (types.Index, error) {
 	err = json.Unmarshal(b, &idx)
 	return idx, err
 }
+
+func jsonUnmarshal(b []byte, v any) error { return json.Unmarshal(b, v) }
